@@ -426,8 +426,8 @@ def _layout_via(ctx: Ctx, entry: str, k: int, mm) -> tuple:
 def _r043(ctx: Ctx) -> None:
     branch_names = {(None,): 'single error', }
     for entry in ('get_effective_error', 'logical_errors'):
-        for k in (1, 2, 3):
-            for mm in (None, 1, 3):
+        for k in ((1, 2, 3, 4) if ctx.tier == 'thorough' else (1, 2, 3)):
+            for mm in ((None, 1, 2, 3, 5) if ctx.tier == 'thorough' else (None, 1, 3)):
                 site, outs = _layout_via(ctx, entry, k, mm)
                 ctx.need(len(outs) == 1, 'R04.3', site, f'expected a single path for k={k}, m={mm}: {outs}')
                 o = outs[0]
